@@ -1370,4 +1370,20 @@ theorem trunc_robust (tr : ℝ → Int) (htr : ∀ x : ℝ, 0 ≤ x → (tr x : 
   have e2' : tr y < tr y' + 1 := by exact_mod_cast e2
   omega
 
+
+theorem knnRetained_subset (o : Norm) (pdim kk : Nat) (radius : Option ℝ) (pts : List (Pt ℝ)) :
+    ∀ p ∈ knnRetained o pdim kk radius pts, p ∈ pts := by
+  intro p hp
+  cases radius with
+  | none => exact hp
+  | some r =>
+    simp only [knnRetained, nbrMask, selectMask_map] at hp
+    exact (List.mem_filter.1 hp).1
+
+/-- the rows the code retains when its radius mask is computed from the distance `D'` (all rows without a radius) -/
+noncomputable def knnRetainedWith (D' : Pt ℝ → Pt ℝ → ℝ) (kk : Nat) (radius : Option ℝ) (pts : List (Pt ℝ)) : List (Pt ℝ) :=
+  match radius with
+  | none => pts
+  | some r => selectMask pts (pts.map fun p => decide ((kk : ℤ) ≤ (pts.countP (fun q => decide (D' p q ≤ r)) : ℤ) - 1))
+
 end PP.Cloud
